@@ -175,6 +175,9 @@ func c17EPModule(r *explore.Run, m *wgen.F5EPModule) {
 		c17HLSL(model, mod, true, fail, count)
 		c17MSL(model, mod, fail, count)
 		c17GLSL(model, mod, fail, count)
+		c17ReflGLSLPairs(model, mod, "texa", fail, count)
+		c17ReflHLSL(model, mod, fail, count)
+		c17ReflMSL(model, mod, fail, count)
 		for _, e := range model.Entries {
 			c17HLSLEntry(model, mod, false, e.Name, fail, count)
 			c17HLSLEntry(model, mod, true, e.Name, fail, count)
